@@ -46,23 +46,28 @@ let b2s b = if b then "1" else "0"
 let next_sop st = match next st with
   | "I" -> OpImport (next_str st) | "A" -> OpPathInsert (next_str st) | "O" -> OpPathPop0
   | "D" -> OpPathDrop (next_str st) | "R" -> OpPathRemove (next_str st) | "C" -> OpChdir (next_str st)
+  | "N" -> let o = next_str st in let n = next_str st in OpRename (o, n)
+  | "F" -> OpRead (next_str st)
   | t -> failwith ("sop " ^ t)
 let next_proj st =
   let id = nat_of_int (next_int st) in
   let kind = (match next st with "S" -> KSetupPy | "P0" -> KPep517 false | "P1" -> KPep517 true | t -> failwith ("pkind " ^ t)) in
   let arg = next_str st in let dir = next_str st in let sd = next_str st in
   let helpers = next_list st (fun st -> let n = next_str st in let d = next_str st in (n, d)) in
+  let files = next_list st next_str in
   let ops = next_list st next_sop in
   let en = (match next st with "R" -> EReturn | "X" -> ERaise | "E" -> ESysExit | t -> failwith ("ending " ^ t)) in
-  { pj_id = id; pj_kind = kind; pj_arg = arg; pj_dir = dir; pj_setupdir = sd; pj_helpers = helpers; pj_ops = ops; pj_end = en }
+  { pj_id = id; pj_kind = kind; pj_arg = arg; pj_dir = dir; pj_setupdir = sd; pj_helpers = helpers; pj_files = files; pj_ops = ops; pj_end = en }
 let print_pstate s =
-  Printf.sprintf "%s %s %d %s %d %s %d %s %d %s" (cl_hex s.g_cwd) (b2s s.g_capture)
+  Printf.sprintf "%s %s %d %s %d %s %d %s %d %s %d %s" (cl_hex s.g_cwd) (b2s s.g_capture)
+    (List.length s.g_renames) (String.concat " " (List.map (fun (k, v) -> cl_hex k ^ ":" ^ cl_hex v) s.g_renames))
     (List.length s.g_path) (String.concat " " (List.map cl_hex s.g_path))
     (List.length s.g_meta) (String.concat " " (List.map (fun h -> string_of_int (int_of_nat h.h_owner)) s.g_meta))
     (List.length s.g_modules) (String.concat " " (List.map (fun (n, o) -> cl_hex n ^ ":" ^ string_of_int (int_of_nat o)) s.g_modules))
     (List.length s.g_patched) (String.concat " " (List.map cl_hex s.g_patched))
 let print_outcome o =
-  Printf.sprintf "%s %d %s %s %s" (cl_hex o.o_resolved)
+  Printf.sprintf "%s %d %s %d %s %s %s" (cl_hex o.o_resolved)
+    (List.length o.o_reads) (String.concat " " (List.map (fun (n, w) -> cl_hex n ^ ":" ^ cl_hex w) o.o_reads))
     (List.length o.o_seen) (String.concat " " (List.map (fun (n, w) -> cl_hex n ^ ":" ^ string_of_int (int_of_nat w)) o.o_seen))
     (b2s o.o_failed) (b2s o.o_escaped)
 
@@ -113,7 +118,7 @@ let handle line =
     (* S cwd npath path... nproj proj... : every analysis' outcome, guard and the state after it *)
     let cwd = next_str st in let cap = next_bool st in let path = next_list st next_str in
     let ps = next_list st next_proj in
-    let s0 = { g_cwd = cwd; g_path = path; g_meta = []; g_modules = []; g_patched = []; g_capture = cap } in
+    let s0 = { g_cwd = cwd; g_path = path; g_meta = []; g_modules = []; g_patched = []; g_capture = cap; g_renames = [] } in
     let rec go s = function
       | [] -> []
       | p :: r -> let (o, s') = analyse s p in
